@@ -481,7 +481,7 @@ func newRun(tw *trace.Writer, ctx string, memKB int) (*sqlRun, error) {
 		return nil, fmt.Errorf("engine start panicked: %s", pm)
 	}
 	s := &sqlRun{tw: tw, e: e, ctx: ctx}
-	s.emit(map[string]interface{}{"ev": "Reset"})
+	s.emit(map[string]interface{}{"ev": "Reset", "sc": curScenario})
 	return s, nil
 }
 
